@@ -17,11 +17,13 @@ RULE = (
     "p0(1-1e-3),1.37p0} up to depth 4 (quick) / 5 (thorough) on cubes (3,4,16) and (5,2,12) with all-distinct contents (plus a 1-sub-band "
     "and a 1-sub-integration cube); state key = all mutable fields of the object (data bytes, dm, period, internal shift arrays); in every state: cube == fresh "
     "cube re-tuned directly to the reported (dm, period) in both call orders, every profile is a rotation of the folded profile, dm/period "
-    "report the last targets, and (dm0,p0) gives the original bits. Non-trivial = histories of length >= 2"
+    "report the last targets, (dm0,p0) gives the original bits, and the measured rotation of every profile equals an independent float64 statement of the implied shift "
+    "(dispersion delay of the sub-band in new bins + linear period drift; profiles within 1e-3 bin of a rounding boundary are counted, not judged). The same to depth 2 on cubes "
+    "(128,2,32) and (200,4,50) of a 600 s observation with period steps of 2e-6 and -3e-6. Non-trivial = histories of length >= 2"
 )
 ASSUMPTIONS = [
     "targets come from a small alphabet chosen so that the implied shifts are non-zero and distinct; larger alphabets are sampled by a seeded random walk (thorough, auxiliary)",
-    "the differential oracle uses the library itself on a fresh cube: it decides history-independence, not the physical correctness of a single shift",
+    "the differential oracle uses the library itself on a fresh cube: it decides history-independence; the absolute shift model (C09's dispersion constant, linear drift) decides the single shift",
 ]
 REQUIRED_OUTCOMES = ["state/ok", "state/back_to_folding_values", "state/repeat_noop"]
 
@@ -39,13 +41,39 @@ def shards(tier: str, seed: int) -> list:
             out.append({"cube": cube, "depth": b["depth"], "first": first})
     if tier == "thorough":
         out.append({"cube": b["cubes"][0], "depth": 0, "first": -1, "random": 400})
+    # large cubes (more sub-integrations than any block size is likely to be), long observation, period refinements of a few 1e-6
+    for cube in ([[128, 2, 32], [200, 4, 50]] if tier == "quick" else [[65, 1, 16], [128, 2, 32], [200, 4, 50], [1000, 2, 64]]):
+        for first in range(6):
+            out.append({"cube": cube, "depth": 2 if tier == "quick" else 3, "first": first, "cfg": "long"})
     return out
 
 
 DM0, P0 = 50.0, 0.016
+# the large-cube lane: 10 minutes of data folded at 5 ms, so that a period refinement of 2e-6 is a drift of several bins
+LONG = {"P0": 0.005, "nsamples": 600000}
+_CFG = {"P0": P0, "nsamples": 10000}
+K_DM = 4.148808e3
+
+
+def _model_shifts(shape, dm, period):
+    """Independent statement of the implied shift (in bins, to the left) of profile (i, s): dispersion delay of sub-band s relative to the first
+    channel for (dm - DM0) in units of the new bin width, plus a drift growing linearly over the sub-integrations to dbins = (p/p0 - 1) tobs nbins/p0.
+    Returns (shift[i, s], ambiguous[i, s]) - ambiguous where a rounding boundary is within the float32 evaluation error."""
+    nints, nbands, nbins = shape
+    p0 = _CFG["P0"]
+    tobs = _CFG["nsamples"] * 1e-3
+    f = 1500.0 + np.arange(nbands) * (-50.0 * 8 / nbands)
+    x = K_DM * (dm - DM0) * (f**-2.0 - 1500.0**-2.0) / (period / nbins)
+    dbins = (period / p0 - 1.0) * tobs * nbins / p0
+    y = np.arange(nints) * dbins / nints
+    amb = (np.abs(np.abs(x - np.floor(x)) - 0.5) < 1e-3 + 1e-6 * np.abs(x))[None, :] | (np.abs(np.abs(y - np.floor(y)) - 0.5) < 1e-3 + 1e-6 * np.abs(y))[:, None]
+    return (np.round(y)[:, None] + np.round(x)[None, :]).astype(np.int64), amb
 
 
 def _ops():
+    if _CFG is not None and _CFG["P0"] != P0:
+        p0 = _CFG["P0"]
+        return [("p", p0 * (1 + 2e-6)), ("dm", DM0 + 15), ("p", p0 * (1 - 3e-6)), ("p", p0 * (1 + 1e-3)), ("p", p0), ("dm", DM0)]
     return [("dm", DM0), ("dm", DM0 + 15), ("dm", DM0 + 30), ("dm", DM0 - 10),
             ("p", P0), ("p", P0 * (1 + 1e-3)), ("p", P0 * (1 + 2.5e-3)), ("p", P0 * (1 - 1e-3)),
             # a large period change: the bin width changes enough for the DM shifts (in bins) to differ
@@ -58,9 +86,9 @@ def _fresh(shape):
 
     nints, nbands, nbins = shape
     hdr = Header(filename="c.fil", data_type="filterbank", nchans=8, foff=-50.0, fch1=1500.0, nbits=32, tsamp=1e-3,
-                 tstart=58000.0, nsamples=10000)
+                 tstart=58000.0, nsamples=_CFG["nsamples"])
     data = (np.arange(nints * nbands * nbins, dtype=np.float32) + 1).reshape(nints, nbands, nbins)
-    return FoldedData(data.copy(), hdr, P0, DM0), data
+    return FoldedData(data.copy(), hdr, _CFG["P0"], DM0), data
 
 
 def _apply(fd, op):
@@ -83,13 +111,14 @@ def _key(fd):
 def _check_state(shape, hist, fd, orig, res, shard) -> bool:
     case = {"shard": shard, "inner": [list(h) for h in hist]}
     last_dm = next((v for k, v in reversed(hist) if k == "dm"), DM0)
-    last_p = next((v for k, v in reversed(hist) if k == "p"), P0)
+    last_p = next((v for k, v in reversed(hist) if k == "p"), _CFG["P0"])
     if fd.dm != last_dm or fd.period != last_p:
         res.violation({"site": "FoldedData", "symptom": "reported dm/period are not the last targets"}, case,
                       f"reports dm={fd.dm} period={fd.period}, last targets {last_dm}, {last_p}")
         return False
     # every profile must be a rotation of the folded profile
     nints, nbands, nbins = shape
+    rot = np.zeros((nints, nbands), dtype=np.int64)
     for i in range(nints):
         for b in range(nbands):
             prof = fd.data[i, b]
@@ -98,6 +127,17 @@ def _check_state(shape, hist, fd, orig, res, shard) -> bool:
                 res.violation({"site": "FoldedData", "symptom": "profile is not a rotation of the folded profile"}, case,
                               f"subint {i} subband {b}: {prof.tolist()} vs folded {orig[i, b].tolist()}")
                 return False
+            rot[i, b] = k
+    # absolute oracle: the rotation of every profile is the shift implied by the final (dm, period)
+    want, amb = _model_shifts(shape, last_dm, last_p)
+    bad = ((rot - (-want)) % nbins != 0) & ~amb
+    res.count("model_profiles_checked", int((~amb).sum()))
+    res.count("model_profiles_ambiguous", int(amb.sum()))
+    if bad.any():
+        i, b = (int(v) for v in np.argwhere(bad)[0])
+        res.violation({"site": "FoldedData", "symptom": "profile rotation differs from the shift implied by the final dm/period"}, case,
+                      f"history {hist}: subint {i} subband {b} is rotated by {int(rot[i, b])} bins, the model implies {int((-want[i, b]) % nbins)} (of {nbins}); {int(bad.sum())} of {bad.size} profiles differ")
+        return False
     # differential oracle: fresh cube tuned directly, both orders
     refs = []
     for order in (("dm", "p"), ("p", "dm")):
@@ -114,7 +154,7 @@ def _check_state(shape, hist, fd, orig, res, shard) -> bool:
         res.violation({"site": "FoldedData", "symptom": "cube depends on the update history"}, case,
                       f"history {hist} ends at dm={last_dm} period={last_p}; differs from a fresh cube tuned directly in (subint,subband) {diff}")
         return False
-    if last_dm == DM0 and last_p == P0:
+    if last_dm == DM0 and last_p == _CFG["P0"]:
         if not np.array_equal(fd.data, orig):
             res.violation({"site": "FoldedData", "symptom": "returning to the folding values does not restore the cube"}, case, f"history {hist}")
             return False
@@ -128,6 +168,8 @@ def _check_state(shape, hist, fd, orig, res, shard) -> bool:
 
 
 def run_shard(shard: dict, ctx, res, only=None) -> None:
+    global _CFG
+    _CFG = dict(LONG) if shard.get("cfg") == "long" else {"P0": P0, "nsamples": 10000}
     shape = tuple(shard["cube"])
     ops = _ops()
     if only is not None:
